@@ -17,6 +17,7 @@ REPO = "/repo"
 OUT = "/tmp/mut"
 ENV = dict(os.environ, GOFLAGS="-mod=mod", GOPROXY="off", GOTOOLCHAIN="local", GOSUMDB="off")
 VGO = "/root/go/pkg/mod/golang.org/toolchain@v0.0.1-go1.24.0.linux-amd64/bin/go"
+ENV["VGO"] = VGO
 
 SKIP_FILES = {"gen.sh", "spec/gocc2.ebnf", "internal/frontend/parser/tables.go", "internal/frontend/token/tokens.go"}
 
@@ -115,7 +116,12 @@ def one(job):
                 killed.append(pid)
                 break  # one kill is enough
         res["detail"] = detail
-        res["status"] = "killed:" + ",".join(killed) if killed else "SURVIVED"
+        if killed:
+            res["status"] = "killed:" + ",".join(killed)
+        elif any(v.startswith("rc=2") or v.startswith("rc=124") for v in detail.values()):
+            res["status"] = "INCONCLUSIVE"
+        else:
+            res["status"] = "SURVIVED"
         return res
     finally:
         run(["git", "-C", REPO, "worktree", "remove", "--force", wt])
